@@ -582,7 +582,7 @@ def _scattering_angles_with_gravity_generic(
     x = sc.dot(scattered_beam, ex).to(dtype=elem_dtype(y), copy=False)
     phi = sc.atan2(y=y, x=x, out=y)
 
-    drop = drop_distance * (gravity / sc.norm(gravity))
+    drop = drop_distance * ey
     drop += scattered_beam
     return {
         'two_theta': two_theta(incident_beam=incident_beam, scattered_beam=drop).to(
